@@ -33,7 +33,7 @@ def run(ctx):
                traces_validated_against_impl=len(lines), evaluations=sum(len(l["after"]) for l in lines), distinct_nontrivial=len(keys),
                rule="retained message = {Address IPv4 / IPv6 / other family, unknown AVP, IPv4, IPv6, OctetString, UTF8String, Unsigned32, Time, all of them} x nesting depth 0..2 x {<= 1 KiB, > 1 KiB}, followed by every history "
                     "of up to MaxLater later reads x {same goroutine, another goroutine, a real connection's serve loop} x {<= 1 KiB, > 1 KiB} of a same-layout message with complemented bytes (spec/PoolGen.tla, exhaustive); "
-                    "one P and the collector off make sync.Pool hand the released buffer to the next reader. every history has a later read; distinct by (type, depth, size, history) Since extended: variable-length values of payload lengths up to the one that fills the 1 KiB pooled buffer exactly; raw wire kinds the reader may refuse (IPv4 in mapped form, damaged optional group, IPv4-mapped Address); the snapshot starts with the header as it stands and includes WriteTo; P-flagged AVPs; fixed-size types with a wrong-length payload; messages retained from the SCTP read path and by a handler of a served connection.",
+                    "one P and the collector off make sync.Pool hand the released buffer to the next reader. every history has a later read; distinct by (type, depth, size, history) Since extended: variable-length values of payload lengths up to the one that fills the 1 KiB pooled buffer exactly; raw wire kinds the reader may refuse (IPv4 in mapped form, damaged optional group, IPv4-mapped Address); the snapshot starts with the header as it stands and includes WriteTo; P-flagged AVPs; fixed-size types with a wrong-length payload; messages retained from the SCTP read path and by a handler of a served connection; an error answer with an undecodable member; empty groups filled by the owner of a later message.",
                samples=[dict(kind=l["kind"], depth=l["depth"], size=l["size"], history=l["history"], before=l["before"], after=l["after"]) for l in lines[0:len(lines):max(1, len(lines) // 3)]][:3],
                exhaustive=True, rejected=len(bad), known_finding_hits={k: n for k, (n, _) in v.hits.items()})
     rc = v.finish()
